@@ -247,7 +247,28 @@ func (g *G) extraTmpl(d int) *Node {
 
 // extraStmt returns a statement (group) of one of the extra kinds.
 func (g *G) extraStmt(d int) []*Node {
-	switch g.intn(13, "extraStmtKind") {
+	switch g.intn(14, "extraStmtKind") {
+	case 13:
+		// two concatenations from one array (of a length that leaves spare capacity behind it, or grown by push / shrunk by
+		// pop), then a write through one result: every + gives a fresh array
+		src := g.FreshName()
+		g.Env.Put(&VarInfo{Name: src, T: TAny, Len: -1})
+		n := []int{5, 6, 7, 9, 3, 12}[g.intn(6, "ccLen")]
+		out := []*Node{Set(src, g.arrILit(n))}
+		switch g.intn(3, "ccPrep") {
+		case 0:
+			out = append(out, MCall(Var(src), "push", Int(int64(g.intn(9, "ccPush")))))
+		case 1:
+			out = append(out, MCall(Var(src), "pop"))
+		}
+		b, c := g.FreshName(), g.FreshName()
+		g.Env.Put(&VarInfo{Name: b, T: TAny, Len: -1})
+		g.Env.Put(&VarInfo{Name: c, T: TAny, Len: -1})
+		out = append(out, Set(b, Bin("+", Var(src), g.arrILit(g.intn(3, "ccB")))), Set(c, Bin("+", Var(src), g.arrILit(1+g.intn(2, "ccC")))))
+		if g.intn(2, "ccWrite") == 0 {
+			out = append(out, N("setidx", Var(b), Int(0), Int(int64(90+g.intn(9, "ccW")))))
+		}
+		return append(out, N("arr", Var(src), Var(b), Var(c)))
 	case 11, 12:
 		// bound built-in methods: a method value keeps its own receiver while the same method of another
 		// receiver is read, called, or called inside its own arguments
